@@ -488,4 +488,273 @@ theorem next_rel (s : St) (ha : Rel s.req s.l) (hop : s.req.op = .scandir) :
         · refine ⟨⟨?_, ?_, ?_, ?_, ?_, ?_, ?_, ?_, ?_, ?_, ?_, ?_, ?_, ?_⟩, rfl⟩ <;>
             simp [Ledger.free, Ledger.get, Ledger.set, Ledger.bad, pathRole, pathKind, hpos] <;> (try omega) <;> (try assumption)
 
+/-- `finishWork` on a request whose `ptr` is still NULL and that is no readdir / scandir -/
+theorem finish_rel_null (q : Req) (l : Ledger) (o : Outcome) (ha : Rel q l) (hp : q.ptr = .null) (hr : q.result = 0)
+    (h1 : q.op ≠ .readdir) (h2 : q.op ≠ .scandir) : Rel (finishWork q o) l := by
+  obtain ⟨op, cb, path, np, bufs, ptr, res, nb⟩ := q
+  simp only [] at hp hr h1 h2
+  subst hp hr
+  obtain ⟨a1, a2, a3, a4, a5, a6, a7, a8, a9, a10, a11, a12, a13, a14⟩ := ha
+  simp at a6 a7 a9 a10
+  cases o with
+  | fail e =>
+    refine ⟨a1, a2, a3, a4, a5, ?_, ?_, ?_, ?_, ?_, ?_, ?_, ?_, ?_⟩ <;> simp [finishWork, *]
+  | ok n =>
+    by_cases hs : n = 0 ∧ isStat op = true
+    · refine ⟨a1, a2, a3, a4, a5, ?_, ?_, ?_, ?_, ?_, ?_, ?_, ?_, ?_⟩ <;> simp [finishWork, hs, *]
+    · refine ⟨a1, a2, a3, a4, a5, ?_, ?_, ?_, ?_, ?_, ?_, ?_, ?_, ?_⟩ <;> simp [finishWork, hs, *]
+
+/-- the request and ledger before a pass of `uv__fs_work` -/
+structure PreW (q : Req) (l : Ledger) : Prop where
+  res0 : q.result = 0
+  ptr : q.ptr = .null ∨ q.ptr = .dir
+  dirOp : q.ptr = .dir ↔ (q.op = .readdir ∨ q.op = .closedir)
+  bufsU : q.bufs = .user → q.cb = false ∧ q.op = .read
+  od : q.op = .opendir → l.dir = 0 ∧ l.dirstream = 0
+  rdh : q.bufs = .heap → q.op = .read → q.cb = true
+
+theorem attempt_simple (q : Req) (l : Ledger) (o : Outcome)
+    (h1 : q.op ≠ .read) (h2 : q.op ≠ .write) (h3 : q.op ≠ .scandir) (h4 : q.op ≠ .opendir) (h5 : q.op ≠ .readdir)
+    (h6 : q.op ≠ .closedir) (h7 : q.op ≠ .statfs) (h8 : q.op ≠ .readlink) (h9 : q.op ≠ .realpath) :
+    (attempt q l o).1 = q ∧ (attempt q l o).2.1 = l := by
+  unfold attempt
+  split <;> first | (exfalso; simp_all; done) | (constructor <;> (repeat' split) <;> rfl)
+
+set_option hygiene false in
+macro "rel_fin" : tactic => `(tactic|
+  (refine ⟨?_, ?_, ?_, ?_, ?_, ?_, ?_, ?_, ?_, ?_, ?_, ?_, ?_, ?_⟩ <;>
+    simp [finishWork, Ledger.alloc, Ledger.free, Ledger.get, Ledger.set, Ledger.bad, pathRole, pathKind, isStat, *] <;>
+    (try omega) <;> (try assumption)))
+
+theorem attempt_rel (q : Req) (l : Ledger) (o : Outcome) (hp : PreW q l) (ha : Rel q l) :
+    (∀ e, (attempt q l o).2.2 = .fail e →
+      PreW (attempt q l o).1 (attempt q l o).2.1 ∧ Rel (attempt q l o).1 (attempt q l o).2.1 ∧ (attempt q l o).1.bufs ≠ .user) ∧
+    (∀ n, (attempt q l o).2.2 = .ok n →
+      Rel (finishWork (attempt q l o).1 (.ok n)) (attempt q l o).2.1 ∧ (attempt q l o).1.bufs ≠ .user) := by
+  by_cases c1 : q.op = .read
+  ·
+    obtain ⟨op, cb, path, np, bufs, ptr, res, nb⟩ := q
+    obtain ⟨r0, hptr, hdo, hbu, hod, hrh⟩ := hp
+    simp only [] at c1 r0 hptr hdo hbu hod hrh
+    subst c1 r0
+    have hpn : ptr = .null := by
+      rcases hptr with h | h
+      · exact h
+      · simp [h] at hdo
+    subst hpn
+    obtain ⟨a1, a2, a3, a4, a5, a6, a7, a8, a9, a10, a11, a12, a13, a14⟩ := ha
+    simp only [] at a1 a2 a3 a4 a5 a6 a7 a8 a9 a10 a11 a12 a13 a14
+    simp [pathRole, pathKind, Ledger.get] at a2 a4 a6 a7 a9 a10 hbu
+    clear a8 a11 a12 a13 a14
+    cases o <;> cases bufs <;> cases cb <;> simp at hbu a5 a2 a4 hrh <;> simp [attempt] <;>
+      (first
+        | (refine ⟨⟨rfl, Or.inl rfl, by simp, by simp, by simp, by simp⟩, ?_⟩; rel_fin)
+        | rel_fin)
+
+  by_cases c2 : q.op = .write
+  ·
+    obtain ⟨op, cb, path, np, bufs, ptr, res, nb⟩ := q
+    obtain ⟨r0, hptr, hdo, hbu, hod, hrh⟩ := hp
+    simp only [] at c2 r0 hptr hdo hbu hod hrh
+    subst c2 r0
+    have hpn : ptr = .null := by
+      rcases hptr with h | h
+      · exact h
+      · simp [h] at hdo
+    subst hpn
+    obtain ⟨a1, a2, a3, a4, a5, a6, a7, a8, a9, a10, a11, a12, a13, a14⟩ := ha
+    simp only [] at a1 a2 a3 a4 a5 a6 a7 a8 a9 a10 a11 a12 a13 a14
+    simp [pathRole, pathKind, Ledger.get] at a2 a4 a6 a7 a9 a10 hbu
+    clear a8 a11 a12 a13 a14
+    cases o <;> cases bufs <;> cases cb <;> simp at hbu a5 a2 a4 <;> simp [attempt] <;>
+      (first
+        | (refine ⟨⟨rfl, by simp, by simp, by simp, by simp [Ledger.alloc, Ledger.free, Ledger.get, Ledger.set, *], by simp⟩, ?_⟩; rel_fin)
+        | rel_fin)
+
+  by_cases c3 : q.op = .scandir
+  ·
+    obtain ⟨op, cb, path, np, bufs, ptr, res, nb⟩ := q
+    obtain ⟨r0, hptr, hdo, hbu, hod, hrh⟩ := hp
+    simp only [] at c3 r0 hptr hdo hbu hod hrh
+    subst c3 r0
+    have hpn : ptr = .null := by
+      rcases hptr with h | h
+      · exact h
+      · simp [h] at hdo
+    subst hpn
+    obtain ⟨a1, a2, a3, a4, a5, a6, a7, a8, a9, a10, a11, a12, a13, a14⟩ := ha
+    simp only [] at a1 a2 a3 a4 a5 a6 a7 a8 a9 a10 a11 a12 a13 a14
+    simp [pathRole, pathKind, Ledger.get] at a2 a4 a6 a7 a9 a10 hbu
+    clear a8 a11 a12 a13 a14
+    rcases o with (_ | n) | e <;> cases bufs <;> simp at hbu a5 <;> simp [attempt] <;>
+      (first
+        | (refine ⟨⟨rfl, by simp, by simp, by simp, by simp [Ledger.alloc, Ledger.free, Ledger.get, Ledger.set, *], by simp⟩, ?_⟩; rel_fin)
+        | rel_fin)
+
+  by_cases c4 : q.op = .opendir
+  ·
+    obtain ⟨op, cb, path, np, bufs, ptr, res, nb⟩ := q
+    obtain ⟨r0, hptr, hdo, hbu, hod, hrh⟩ := hp
+    simp only [] at c4 r0 hptr hdo hbu hod hrh
+    subst c4 r0
+    have hpn : ptr = .null := by
+      rcases hptr with h | h
+      · exact h
+      · simp [h] at hdo
+    subst hpn
+    obtain ⟨a1, a2, a3, a4, a5, a6, a7, a8, a9, a10, a11, a12, a13, a14⟩ := ha
+    simp only [] at a1 a2 a3 a4 a5 a6 a7 a8 a9 a10 a11 a12 a13 a14
+    simp [pathRole, pathKind, Ledger.get] at a2 a4 a6 a7 a9 a10 hbu
+    clear a8 a11 a12 a13 a14
+    simp at hod
+    cases o <;> cases bufs <;> simp at hbu a5 <;> simp [attempt] <;>
+      (first
+        | (refine ⟨⟨rfl, by simp, by simp, by simp, by simp [Ledger.alloc, Ledger.free, Ledger.get, Ledger.set, *], by simp⟩, ?_⟩; rel_fin)
+        | rel_fin)
+
+  by_cases c5 : q.op = .readdir
+  ·
+    obtain ⟨op, cb, path, np, bufs, ptr, res, nb⟩ := q
+    obtain ⟨r0, hptr, hdo, hbu, hod, hrh⟩ := hp
+    simp only [] at c5 r0 hptr hdo hbu hod hrh
+    subst c5 r0
+    have hpd : ptr = .dir := hdo.mpr (by simp)
+    subst hpd
+    obtain ⟨a1, a2, a3, a4, a5, a6, a7, a8, a9, a10, a11, a12, a13, a14⟩ := ha
+    simp only [] at a1 a2 a3 a4 a5 a6 a7 a8 a9 a10 a11 a12 a13 a14
+    simp [pathRole, pathKind, Ledger.get] at a2 a4 a6 a7 a9 a10 a11 hbu
+    clear a8 a12 a13 a14
+    cases o <;> cases bufs <;> simp at hbu a5 <;> simp [attempt] <;>
+      (first
+        | (refine ⟨⟨rfl, by simp, by simp, by simp, by simp [Ledger.alloc, Ledger.free, Ledger.get, Ledger.set, *], by simp⟩, ?_⟩; rel_fin)
+        | rel_fin)
+
+  by_cases c6 : q.op = .closedir
+  ·
+    obtain ⟨op, cb, path, np, bufs, ptr, res, nb⟩ := q
+    obtain ⟨r0, hptr, hdo, hbu, hod, hrh⟩ := hp
+    simp only [] at c6 r0 hptr hdo hbu hod hrh
+    subst c6 r0
+    have hpd : ptr = .dir := hdo.mpr (by simp)
+    subst hpd
+    obtain ⟨a1, a2, a3, a4, a5, a6, a7, a8, a9, a10, a11, a12, a13, a14⟩ := ha
+    simp only [] at a1 a2 a3 a4 a5 a6 a7 a8 a9 a10 a11 a12 a13 a14
+    simp [pathRole, pathKind, Ledger.get] at a2 a4 a6 a7 a9 a10 a11 hbu
+    clear a8 a12 a13 a14
+    cases o <;> cases bufs <;> simp at hbu a5 <;> simp [attempt] <;>
+      (first
+        | (refine ⟨⟨rfl, by simp, by simp, by simp, by simp [Ledger.alloc, Ledger.free, Ledger.get, Ledger.set, *], by simp⟩, ?_⟩; rel_fin)
+        | rel_fin)
+
+  by_cases c7 : q.op = .statfs ∨ q.op = .readlink ∨ q.op = .realpath
+  · rcases c7 with c | c | c
+    ·
+      obtain ⟨op, cb, path, np, bufs, ptr, res, nb⟩ := q
+      obtain ⟨r0, hptr, hdo, hbu, hod, hrh⟩ := hp
+      simp only [] at c r0 hptr hdo hbu hod hrh
+      subst c r0
+      have hpn : ptr = .null := by
+        rcases hptr with h | h
+        · exact h
+        · simp [h] at hdo
+      subst hpn
+      obtain ⟨a1, a2, a3, a4, a5, a6, a7, a8, a9, a10, a11, a12, a13, a14⟩ := ha
+      simp only [] at a1 a2 a3 a4 a5 a6 a7 a8 a9 a10 a11 a12 a13 a14
+      simp [pathRole, pathKind, Ledger.get] at a2 a4 a6 a7 a9 a10 hbu
+      clear a8 a11 a12 a13 a14
+      cases o <;> cases bufs <;> simp at hbu a5 <;> simp [attempt] <;>
+        (first
+          | (refine ⟨⟨rfl, by simp, by simp, by simp, by simp [Ledger.alloc, Ledger.free, Ledger.get, Ledger.set, *], by simp⟩, ?_⟩; rel_fin)
+          | rel_fin)
+  
+    ·
+      obtain ⟨op, cb, path, np, bufs, ptr, res, nb⟩ := q
+      obtain ⟨r0, hptr, hdo, hbu, hod, hrh⟩ := hp
+      simp only [] at c r0 hptr hdo hbu hod hrh
+      subst c r0
+      have hpn : ptr = .null := by
+        rcases hptr with h | h
+        · exact h
+        · simp [h] at hdo
+      subst hpn
+      obtain ⟨a1, a2, a3, a4, a5, a6, a7, a8, a9, a10, a11, a12, a13, a14⟩ := ha
+      simp only [] at a1 a2 a3 a4 a5 a6 a7 a8 a9 a10 a11 a12 a13 a14
+      simp [pathRole, pathKind, Ledger.get] at a2 a4 a6 a7 a9 a10 hbu
+      clear a8 a11 a12 a13 a14
+      cases o <;> cases bufs <;> simp at hbu a5 <;> simp [attempt] <;>
+        (first
+          | (refine ⟨⟨rfl, by simp, by simp, by simp, by simp [Ledger.alloc, Ledger.free, Ledger.get, Ledger.set, *], by simp⟩, ?_⟩; rel_fin)
+          | rel_fin)
+  
+    ·
+      obtain ⟨op, cb, path, np, bufs, ptr, res, nb⟩ := q
+      obtain ⟨r0, hptr, hdo, hbu, hod, hrh⟩ := hp
+      simp only [] at c r0 hptr hdo hbu hod hrh
+      subst c r0
+      have hpn : ptr = .null := by
+        rcases hptr with h | h
+        · exact h
+        · simp [h] at hdo
+      subst hpn
+      obtain ⟨a1, a2, a3, a4, a5, a6, a7, a8, a9, a10, a11, a12, a13, a14⟩ := ha
+      simp only [] at a1 a2 a3 a4 a5 a6 a7 a8 a9 a10 a11 a12 a13 a14
+      simp [pathRole, pathKind, Ledger.get] at a2 a4 a6 a7 a9 a10 hbu
+      clear a8 a11 a12 a13 a14
+      cases o <;> cases bufs <;> simp at hbu a5 <;> simp [attempt] <;>
+        (first
+          | (refine ⟨⟨rfl, by simp, by simp, by simp, by simp [Ledger.alloc, Ledger.free, Ledger.get, Ledger.set, *], by simp⟩, ?_⟩; rel_fin)
+          | rel_fin)
+  
+  · have c7' : q.op ≠ .statfs ∧ q.op ≠ .readlink ∧ q.op ≠ .realpath := by
+      refine ⟨fun h => c7 (Or.inl h), fun h => c7 (Or.inr (Or.inl h)), fun h => c7 (Or.inr (Or.inr h))⟩
+    obtain ⟨e1, e2⟩ := attempt_simple q l o c1 c2 c3 c4 c5 c6 c7'.1 c7'.2.1 c7'.2.2
+    rw [e1, e2]
+    have hpn : q.ptr = .null := by
+      rcases hp.ptr with h | h
+      · exact h
+      · rcases hp.dirOp.mp h with h' | h'
+        · exact absurd h' c5
+        · exact absurd h' c6
+    have hbu : q.bufs ≠ .user := fun h => c1 (hp.bufsU h).2
+    exact ⟨fun e _ => ⟨hp, ha, hbu⟩, fun n _ => ⟨finish_rel_null q l _ ha hpn hp.res0 c5 c3, hbu⟩⟩
+
+theorem finishWork_bufs (q : Req) (o : Outcome) : (finishWork q o).bufs = q.bufs := by
+  cases o <;> rfl
+
+theorem finish_fail_rel (q : Req) (l : Ledger) (e : Nat) (hp : PreW q l) (ha : Rel q l) :
+    Rel (finishWork q (.fail e)) l := by
+  obtain ⟨op, cb, path, np, bufs, ptr, res, nb⟩ := q
+  obtain ⟨r0, hptr, hdo, hbu, hod, hrh⟩ := hp
+  simp only [] at r0 hptr hdo hbu hod hrh
+  subst r0
+  obtain ⟨a1, a2, a3, a4, a5, a6, a7, a8, a9, a10, a11, a12, a13, a14⟩ := ha
+  simp only [] at a1 a2 a3 a4 a5 a6 a7 a8 a9 a10 a11 a12 a13 a14
+  rcases hptr with h | h <;> subst h <;> simp at a6 a7 a9 a10 a11 a13 a14 hdo
+  · refine ⟨a1, a2, a3, a4, a5, ?_, ?_, ?_, ?_, ?_, ?_, ?_, ?_, ?_⟩ <;> simp [finishWork, *]
+  · refine ⟨a1, a2, a3, a4, a5, ?_, ?_, ?_, ?_, ?_, ?_, ?_, ?_, ?_⟩ <;> simp [finishWork, *] <;> (try omega)
+
+theorem work_rel (q : Req) (l : Ledger) (outs : List Outcome) (hp : PreW q l) (ha : Rel q l) :
+    Rel (work q l outs).1 (work q l outs).2 ∧ (work q l outs).1.bufs ≠ .user := by
+  induction outs generalizing q l with
+  | nil =>
+    rw [work_nil]
+    obtain ⟨hf, hk⟩ := attempt_rel q l (.fail EIO) hp ha
+    cases h : (attempt q l (.fail EIO)).2.2 with
+    | ok n => simp only []; rw [finishWork_bufs]; exact hk n h
+    | fail e =>
+      simp only []; rw [finishWork_bufs]
+      obtain ⟨h1, h2, h3⟩ := hf e h
+      exact ⟨finish_fail_rel _ _ e h1 h2, h3⟩
+  | cons o rest ih =>
+    rw [work_cons]
+    obtain ⟨hf, hk⟩ := attempt_rel q l o hp ha
+    cases h : (attempt q l o).2.2 with
+    | ok n => simp only []; rw [finishWork_bufs]; exact hk n h
+    | fail e =>
+      simp only []
+      obtain ⟨h1, h2, h3⟩ := hf e h
+      split
+      · exact ih _ _ h1 h2
+      · rw [finishWork_bufs]; exact ⟨finish_fail_rel _ _ e h1 h2, h3⟩
+
 end UvModel.FsReq
